@@ -712,3 +712,179 @@ Proof. destruct (base_NoDup sp) as [Hb1 Hb2].
   - apply firstn_NoDup. apply NoDup_filter. exact Hnd.
   - intros s Hs. apply firstn_In in Hs. apply filter_In in Hs. destruct Hs as [Hs1 Hs2].
     split; [apply unused_spec; exact Hs2|]. destruct s as [l j]. apply stream_from_In in Hs1. simpl; tauto. Qed.
+
+(* ====================================================================== *)
+(* 6. substitute_contracted: the renaming dict                            *)
+(* ====================================================================== *)
+Lemma sort_eqb_true (a b : sort) : sort_eqb a b = true <-> a = b.
+Proof. destruct a as [s1 p1], b as [s2 p2]. unfold sort_eqb; simpl.
+  rewrite andb_true_iff, space_eqb_eq, spin_eqb_eq. split; [intros [-> ->]; reflexivity|intros H; inversion H; auto]. Qed.
+
+Definition members (g : list (sort * list index)) : list index := flat_map snd g.
+Definition gwf (g : list (sort * list index)) : Prop :=
+  NoDup (map fst g) /\ forall k l, In (k, l) g -> forall x, In x l -> isort x = k.
+
+Lemma group_add_keys x g k : In k (map fst (group_add x g)) <-> k = isort x \/ In k (map fst g).
+Proof. induction g as [|[k' l] r IH]; simpl; [intuition congruence|].
+  destruct (sort_eqb k' (isort x)) eqn:E; simpl.
+  - apply sort_eqb_true in E. subst k'. intuition congruence.
+  - rewrite IH. tauto. Qed.
+Lemma group_add_wf x g : gwf g -> gwf (group_add x g).
+Proof. intros [H1 H2]. induction g as [|[k' l] r IH]; simpl.
+  - split; [repeat constructor; simpl; tauto|]. intros k l [H|[]] y Hy. inversion H; subst.
+    destruct Hy as [->|[]]; reflexivity.
+  - destruct (sort_eqb k' (isort x)) eqn:E.
+    + apply sort_eqb_true in E. split; [exact H1|]. intros k l0 [H|H] y Hy.
+      * inversion H; subst. apply in_app_iff in Hy. destruct Hy as [Hy|[->|[]]]; [|reflexivity].
+        apply (H2 (isort x) l (or_introl eq_refl)); exact Hy.
+      * apply (H2 k l0 (or_intror H)); exact Hy.
+    + simpl in H1. inversion H1 as [|? ? Hn Hnd]; subst.
+      destruct IH as [I1 I2]; [exact Hnd|intros k l0 H; apply (H2 k l0); right; exact H|].
+      split.
+      * simpl. constructor; [|exact I1]. rewrite group_add_keys. intros [H|H]; [|tauto].
+        subst k'. destruct (isort x) as [a b]; unfold sort_eqb in E; simpl in E.
+        assert (space_eqb a a = true) by (apply space_eqb_eq; reflexivity).
+        assert (spin_eqb b b = true) by (apply spin_eqb_eq; reflexivity).
+        rewrite H, H0 in E; discriminate.
+      * intros k l0 [H|H] y Hy; [inversion H; subst; apply (H2 k l0 (or_introl eq_refl)); exact Hy|].
+        apply (I2 k l0 H); exact Hy. Qed.
+Lemma group_add_perm x g : Permutation (x :: members g) (members (group_add x g)).
+Proof. unfold members. induction g as [|[k' l] r IH]; simpl; [reflexivity|].
+  destruct (sort_eqb k' (isort x)); simpl.
+  - rewrite <- app_assoc. simpl. apply Permutation_middle.
+  - rewrite <- IH. apply Permutation_middle. Qed.
+Lemma group_fold_wf l g : gwf g -> gwf (fold_left (fun g x => group_add x g) l g).
+Proof. revert g. induction l as [|x r IH]; intros g H; simpl; [exact H|]. apply IH. apply group_add_wf; exact H. Qed.
+Lemma group_fold_perm l g :
+  Permutation (l ++ members g) (members (fold_left (fun g x => group_add x g) l g)).
+Proof. revert g. induction l as [|x r IH]; intros g; simpl; [reflexivity|].
+  rewrite <- IH. rewrite <- group_add_perm. apply Permutation_middle. Qed.
+Lemma group_by_sort_wf l : gwf (group_by_sort l).
+Proof. apply group_fold_wf. split; [constructor|intros k l0 []]. Qed.
+Lemma group_by_sort_perm l : Permutation l (members (group_by_sort l)).
+Proof. unfold group_by_sort. rewrite <- group_fold_perm. simpl. rewrite app_nil_r. reflexivity. Qed.
+
+Lemma combine_fst {A B} (l : list A) (l' : list B) : length l = length l' -> map fst (combine l l') = l.
+Proof. revert l'. induction l as [|x r IH]; destruct l' as [|y r']; simpl; intros H; try reflexivity; try discriminate.
+  f_equal. apply IH. lia. Qed.
+Lemma combine_snd {A B} (l : list A) (l' : list B) : length l = length l' -> map snd (combine l l') = l'.
+Proof. revert l'. induction l as [|x r IH]; destruct l' as [|y r']; simpl; intros H; try reflexivity; try discriminate.
+  f_equal. apply IH. lia. Qed.
+Lemma map_flat_map {A B C} (f : B -> C) (g : A -> list B) l :
+  map f (flat_map g l) = flat_map (fun x => map f (g x)) l.
+Proof. induction l as [|x r IH]; simpl; [reflexivity|]. rewrite map_app, IH. reflexivity. Qed.
+
+Definition group_names (tg : list index) (g : sort * list index) : list name :=
+  lowest_avail (length (snd g)) (used_names tg (fst g)) (fst (fst g)).
+Definition group_vals (tg : list index) (g : sort * list index) : list index :=
+  map (reg_index (fst g)) (group_names tg g).
+Lemma sc_group_eq tg g : sc_group tg g = combine (snd g) (group_vals tg g).
+Proof. reflexivity. Qed.
+Lemma group_vals_length tg g : length (snd g) = length (group_vals tg g).
+Proof. unfold group_vals, group_names. rewrite map_length.
+  destruct (lowest_avail_spec (length (snd g)) (used_names tg (fst g)) (fst (fst g))) as (_ & H & _). symmetry; exact H. Qed.
+Lemma sc_map_keys c tg : map fst (sc_map c tg) = members (group_by_sort c).
+Proof. unfold sc_map, members. rewrite map_flat_map. apply flat_map_ext. intros g.
+  rewrite sc_group_eq. apply combine_fst. apply group_vals_length. Qed.
+Lemma sc_map_vals c tg : map snd (sc_map c tg) = flat_map (group_vals tg) (group_by_sort c).
+Proof. unfold sc_map. rewrite map_flat_map. apply flat_map_ext. intros g.
+  rewrite sc_group_eq. apply combine_snd. apply group_vals_length. Qed.
+
+Lemma reg_index_sort k nm : isort (reg_index k nm) = k.
+Proof. destruct k; reflexivity. Qed.
+Lemma reg_index_name k nm : iname (reg_index k nm) = nm.
+Proof. destruct nm; reflexivity. Qed.
+Lemma ndedup_In x l : In x (ndedup l) <-> In x l.
+Proof. induction l as [|y r IH]; simpl; [tauto|]. destruct (nmem y r) eqn:E.
+  - rewrite IH. apply nmem_In in E. split; [tauto|]. intros [->|H]; tauto.
+  - simpl. rewrite IH. tauto. Qed.
+
+Lemma group_vals_NoDup tg g : NoDup (group_vals tg g).
+Proof. unfold group_vals, group_names. apply Injective_map_NoDup.
+  - intros a b H. rewrite <- (reg_index_name (fst g) a), <- (reg_index_name (fst g) b), H. reflexivity.
+  - apply lowest_avail_spec. Qed.
+Lemma group_vals_sort tg g x : In x (group_vals tg g) -> isort x = fst g.
+Proof. unfold group_vals. intros H. apply in_map_iff in H. destruct H as (nm & <- & _). apply reg_index_sort. Qed.
+Lemma groups_vals_NoDup tg gs : NoDup (map fst gs) -> NoDup (flat_map (group_vals tg) gs).
+Proof. induction gs as [|g r IH]; simpl; intros H; [constructor|]. inversion H as [|? ? Hn Hnd]; subst.
+  apply NoDup_app_intro; [apply group_vals_NoDup|apply IH; exact Hnd|].
+  intros x Hx Hg. apply group_vals_sort in Hg. apply in_flat_map in Hx. destruct Hx as (g' & H1 & H2).
+  apply group_vals_sort in H2. apply Hn. rewrite <- Hg, H2. apply in_map; exact H1. Qed.
+
+Lemma sim_combine S l v : NoDup (map fst S) -> incl (combine l v) S -> length l = length v ->
+  map (subst_sim S) l = v.
+Proof. intros Hnd. revert v. induction l as [|x r IH]; destruct v as [|y v']; simpl; intros Hi Hl;
+    try reflexivity; try discriminate.
+  f_equal.
+  - apply sim_in; [exact Hnd|apply Hi; left; reflexivity].
+  - apply IH; [intros z Hz; apply Hi; right; exact Hz|lia]. Qed.
+
+Theorem sc_map_spec c tg : NoDup c ->
+  (* exactly the contracted indices are renamed *)
+  Permutation c (map fst (sc_map c tg)) /\
+  (* two distinct indices are never merged *)
+  NoDup (map snd (sc_map c tg)) /\
+  (* space and spin are kept, no target index is hit, the new indices are registry indices *)
+  (forall o n, In (o, n) (sc_map c tg) -> same_sort o n = true /\ ~ In n tg /\ iuid n = 0%N) /\
+  (* per (space, spin): the new names are the lowest unused names, in the order of the contracted indices *)
+  (forall k l, In (k, l) (group_by_sort c) ->
+     map (subst_sim (sc_map c tg)) l =
+     map (reg_index k) (lowest_avail (length l) (used_names tg k) (fst k))).
+Proof. intros Hc. destruct (group_by_sort_wf c) as [W1 W2].
+  assert (Hk : NoDup (map fst (sc_map c tg))).
+  { rewrite sc_map_keys. apply (Permutation_NoDup (group_by_sort_perm c) Hc). }
+  split; [rewrite sc_map_keys; apply group_by_sort_perm|]. split; [|split].
+  - rewrite sc_map_vals. apply groups_vals_NoDup; exact W1.
+  - intros o n H. unfold sc_map in H. apply in_flat_map in H. destruct H as ([k l] & H1 & H2).
+    rewrite sc_group_eq in H2. pose proof (in_combine_l _ _ _ _ H2) as Ho. pose proof (in_combine_r _ _ _ _ H2) as Hn.
+    simpl in Ho. pose proof (W2 k l H1 o Ho) as Hso.
+    unfold group_vals in Hn. apply in_map_iff in Hn. destruct Hn as (nm & <- & Hnm). simpl in Hnm.
+    unfold group_names in Hnm. simpl in Hnm.
+    destruct (lowest_avail_spec (length l) (used_names tg k) (fst k)) as (_ & _ & _ & Hun).
+    destruct (Hun nm Hnm) as [Hun1 _]. simpl. split; [|split; [|destruct k; reflexivity]].
+    + unfold same_sort. unfold isort in Hso. destruct k as [a b]. inversion Hso; subst. simpl.
+      apply andb_true_iff. split; [apply space_eqb_eq|apply spin_eqb_eq]; reflexivity.
+    + intros Ht. apply Hun1. unfold used_names. apply ndedup_In. apply in_map_iff.
+      exists (reg_index k nm). split; [apply reg_index_name|]. apply filter_In. split; [exact Ht|].
+      rewrite reg_index_sort. apply sort_eqb_true; reflexivity.
+  - intros k l H. apply sim_combine; [exact Hk| |].
+    + intros z Hz. unfold sc_map. apply in_flat_map. exists (k, l). split; [exact H|]. exact Hz.
+    + rewrite map_length. destruct (lowest_avail_spec (length l) (used_names tg k) (fst k)) as (_ & HH & _).
+      symmetry; exact HH. Qed.
+
+(* consequently the ordered list built by substitute_contracted realises this renaming *)
+Theorem sc_subs_correct u0 c tg x : NoDup c ->
+  (forall y, In y c -> (iuid y < u0)%N) -> (0 < u0)%N -> (iuid x < u0)%N ->
+  subst_seq (sc_subs u0 c tg) x = subst_sim (sc_map c tg) x.
+Proof. intros Hc Hold Hu Hx. destruct (sc_map_spec c tg Hc) as (H1 & _ & H3 & _).
+  unfold sc_subs. apply order_substitutions_correct.
+  - apply (Permutation_NoDup H1 Hc).
+  - intros k v Hin. split.
+    + apply Hold. apply (Permutation_in _ (Permutation_sym H1)). apply (in_map fst) in Hin. exact Hin.
+    + destruct (H3 k v Hin) as (_ & _ & Hv). rewrite Hv. exact Hu.
+  - apply old_not_temporary; exact Hx. Qed.
+
+(* ====================================================================== *)
+(* 7. minimize_tensor_indices: the result is the image under the returned *)
+(*    transpositions                                                      *)
+(* ====================================================================== *)
+Lemma swaps_seq_snoc perms pq x : swaps_seq (perms ++ [pq]) x = swap_idx (fst pq) (snd pq) (swaps_seq perms x).
+Proof. unfold swaps_seq. rewrite fold_left_app. reflexivity. Qed.
+Lemma minimize_step_image nuniq tgn ix st pos :
+  m_idx st = map (swaps_seq (m_perms st)) ix ->
+  m_idx (minimize_step nuniq tgn st pos) = map (swaps_seq (m_perms (minimize_step nuniq tgn st pos))) ix.
+Proof. intros H. unfold minimize_step.
+  destruct (nth_error (m_idx st) pos) as [s|]; [|exact H].
+  destruct (imem s (m_done st)); [exact H|].
+  destruct (nmem (iname s) _); [exact H|].
+  destruct (match assoc_sort (isort s) (m_min st) with Some l => l | None => _ end) as [|min_s rest]; [exact H|].
+  destruct (index_eqb s min_s); simpl; [exact H|].
+  rewrite H, map_map. apply map_ext. intros x. rewrite swaps_seq_snoc. reflexivity. Qed.
+Theorem minimize_image ix tgn :
+  fst (minimize_tensor_indices ix tgn) = map (swaps_seq (snd (minimize_tensor_indices ix tgn))) ix.
+Proof. unfold minimize_tensor_indices. cbn [fst snd].
+  assert (G : forall l st, m_idx st = map (swaps_seq (m_perms st)) ix ->
+            m_idx (fold_left (minimize_step (length (inodup ix)) tgn) l st) =
+            map (swaps_seq (m_perms (fold_left (minimize_step (length (inodup ix)) tgn) l st))) ix).
+  { induction l as [|p r IH]; intros st H; simpl; [exact H|]. apply IH. apply minimize_step_image; exact H. }
+  apply G. simpl. symmetry. rewrite <- (map_id ix) at 2. apply map_ext. reflexivity. Qed.
